@@ -1,6 +1,7 @@
 import Sheens.Driver.Match
 import Sheens.Driver.Engine
 import Sheens.Driver.Crew
+import Sheens.Driver.MCrew
 
 /-! `driver`: one JSON op per line in, one JSON verdict line out. -/
 
@@ -12,6 +13,7 @@ def dispatch (j : Json) : Json :=
   | "walk" => Driver.handleWalk j
   | "step" => Driver.handleStep j
   | "crew" => Driver.handleCrew j
+  | "mcrew" => Driver.handleMCrew j
   | op => Json.mkObj [("error", Json.str ("unknown op " ++ op))]
 
 partial def loop (hin : IO.FS.Stream) (hout : IO.FS.Stream) : IO Unit := do
